@@ -110,7 +110,43 @@ def _c07_rule(op, args, impl):
     return args[0].count(",") >= 2
 
 
+def _field_rule(op, args, impl):
+    return any(a.count(",") >= 2 or ";" in a for a in args[:3])
+
+
 INFO = {
+    "C06": {
+        "cli": True,
+        "rule": "find_integral_basis on: the unit tests; quadratic x^2-d and x^2+bx+c with large square factors in the discriminant (prime-power indices 2^k, 3^k, 5^k); pure cubics x^3-m incl. m = +-1 mod 9; cyclotomic Phi_n (n <= 12); biquadratics; non-monic f; random irreducible f of degree <= 5 (thorough 6) with coefficients in [-5,5] (irreducible modulo a small prime or from a fixed list; discriminant cofactor bounded so that the implementation's trial division stays short); changes of generator theta+k, -theta, c*theta (c <= 6), 1/theta; closed-form field discriminants; the CLI (to_find = integral_basis) as a process; the private Round 2 step one_step through the feature-guarded wrapper. Non-trivial: degree >= 2.",
+        "rulefn": _field_rule,
+        "trusted": ["irreducibility of the generated f is guaranteed by the harness (irreducible modulo a small prime / known family), not re-checked by the oracle (which requires f primitive, squarefree, degree >= 1)",
+                    "closed-form field discriminants (quadratic, pure cubic, cyclotomic, biquadratic) computed in the harness"],
+        "gaps": ["closure under multiplication, containment of the starting order, disc(result) = disc(start)/index^2 and p-maximality at every p with p^2 | disc (Pohst-Zassenhaus) are not proved: certified on every explored case by Spec.MaxOrder with two independent maximality criteria (radical by Frobenius kernel + injectivity of O/pO -> End(I_p/pI_p) over F_p; and, for small p^n, the definition)",
+                 "termination of the Round 2 loop is not proved"],
+        "assumptions": ["f irreducible (squarefree) of degree >= 1"],
+        "level_text": "Theorems: the primes visited are exactly the prime factors of the starting discriminant (trial division proved correct), stored orders are canonical (HNF uniqueness), non-squarefree input is refused. The property's conclusion (maximal order) is certified per explored case by an independent oracle; the model of Round 2 (multiplication table mod p and p^2, Frobenius power, HNF kernel, U_p, new order) is compared textually with the implementation.",
+        "level_note": "Trusted: Lean kernel + 3 standard axioms; correspondence coverage. Partial: maximality and ring closure are certified per explored case, not proved.",
+    },
+    "C16": {
+        "rule": "maximal orders (find_integral_basis) of quadratic fields x^2+-d, pure cubics, quartics and quintics from a fixed verified list and random monic irreducible cubics; ideals generated by 1..3 random elements, prime ideals from decompose, principal ideals, powers; all pairs and some triples for sum, product, laws; membership of random and constructed elements; inverse w.r.t. the implementation's inverse different; inverse different vs the order's discriminant. Non-trivial: matrix arguments of dimension >= 2.",
+        "rulefn": _field_rule,
+        "trusted": ["maximality of the order is not re-verified here (C06); the oracle checks that B is a ring basis with first vector 1 containing Z[theta] and that its structure constants are T",
+                    "Ideal has no accessor for its HNF: the harness reads it from the derived Debug output and re-validates each extraction with HNF::new(rows) == rows"],
+        "gaps": ["closure of sums/products under the order, product = lattice of pairwise products, commutativity/associativity/distributivity, norm multiplicativity, norm of a principal ideal, cap_z, I*I^-1 = (d), d^n/norm(numer(D)) = |disc|: certified on every explored case by Spec.Ideal (exact lattice computations, spec-side products)"],
+        "assumptions": ["ideals of a maximal order given by HNF bases relative to an integral basis whose first vector is 1"],
+        "level_text": "Theorems (via the HNF theory of C02): the sum is the canonical form of the lattice generated by both arguments, the norm is the lattice index, membership is sum-invariance. The ring-theoretic clauses (Dedekind-domain facts) are certified per explored case by an independent oracle; all outputs are canonical HNFs and are compared textually with the model.",
+        "level_note": "Trusted: Lean kernel + 3 standard axioms; correspondence coverage. Partial: ring-theoretic clauses are certified per explored case, not proved.",
+    },
+    "C17": {
+        "cli": True,
+        "rule": "decompose on the fields of C16 (incl. fields with non-trivial index so that primes dividing the index occur and must be refused) for all primes <= 60 (thorough 200) and three primes beyond 2^64; ramified, inert, split and mixed types; random history of factorize_mod_p captured and replayed; the CLI (to_find = prime-decomposition) as a process. Non-trivial: matrix arguments of dimension >= 2.",
+        "rulefn": _field_rule,
+        "trusted": ["hooked RNG + Lean draw decoder", "primality of p beyond 2^64 from a fixed list; irreducibility over such p by Rabin's test alone"],
+        "gaps": ["Kummer-Dedekind: P_i pairwise distinct primes above p, norm p^f_i with f_i = deg g_i, prod P_i^e_i = (p), sum e_i f_i = n: certified on every explored case (recovery of g_i from P_i by linear algebra over F_p, O/P_i = F_p[x]/(g_i), irreducibility of g_i, exact spec-side ideal product)"],
+        "assumptions": ["monic irreducible f, maximal order, p prime"],
+        "level_text": "Theorems: the refusal guard (p dividing the index gives an explicit panic, never a decomposition) and the machine-word clause. The decomposition itself is certified per explored case by an independent oracle; the model is compared textually with the implementation on the captured random history.",
+        "level_note": "Trusted: Lean kernel + 3 standard axioms; RNG hook/decoder; correspondence coverage. Partial: Kummer-Dedekind is certified per explored case, not proved.",
+    },
     "C07": {
         "cli": True,
         "rule": "all integer polynomials with <= 5 coefficients in a small range; products of 1..4 factors irreducible by construction (Eisenstein, irreducible modulo a prime, cyclotomic, Swinnerton-Dyer type x^4+1, x^4-10x^2+1, degree 8 and 16) with multiplicities up to 12 (>= 7 included), contents, negative and non-monic leading coefficients, large coefficients, x^n - 1, zero and constants, 25 and 26 linear factors (recombination limit); the random history of factorize_mod_p inside is captured and replayed into the model; CLI (to_find = factorization, polynomials) as a process. Non-trivial: degree >= 2.",
